@@ -40,6 +40,8 @@
 package c17
 
 import (
+	"io"
+	"errors"
 	"bytes"
 	"fmt"
 	"math"
@@ -127,6 +129,7 @@ type ctlPlan struct {
 type scenario struct {
 	kind     int
 	rate0    int
+	deadWriter error // when set (and there are >= 2 streams) the next writer of stream 0 fails every packet with it
 	lowRate  bool // rate0 below minRate (leaky bucket only): no rate changes, sized for rate0
 	interval time.Duration // pacing interval (gcc pacers: fixed 5 ms)
 	defaults bool          // pacing: no options at all (1 Mbit/s, 5 ms)
@@ -204,6 +207,9 @@ func buildScenario(r *vf.Rand) *scenario {
 	}
 	s.short = r.Chance(0.3)
 	s.yields = r.Pick(0, 0, 1, 3)
+	if r.Chance(0.12) {
+		s.deadWriter = []error{io.ErrClosedPipe, io.EOF, errors.New("verif: next writer is gone")}[r.Intn(3)]
+	}
 
 	// rate changes (values first: the workload is sized for the lowest rate)
 	rates := []int{s.rate0}
@@ -523,6 +529,10 @@ type cappedWriter struct {
 	limit   int64
 	calls   atomic.Int64
 	dropped atomic.Int64
+	// failWith, when set, is returned for every packet AFTER it was recorded: the next writer of
+	// this one stream is gone (a stopped sender); the pacer's other streams are not affected and
+	// a delivery that ends in an error is still the one delivery of that packet
+	failWith error
 }
 
 func (w *cappedWriter) Write(h *rtp.Header, payload []byte, a interceptor.Attributes) (int, error) {
@@ -530,7 +540,11 @@ func (w *cappedWriter) Write(h *rtp.Header, payload []byte, a interceptor.Attrib
 		w.dropped.Add(1)
 		return h.MarshalSize() + len(payload), nil
 	}
-	return w.g.Write(h, payload, a)
+	n, err := w.g.Write(h, payload, a)
+	if w.failWith != nil {
+		return 0, w.failWith
+	}
+	return n, err
 }
 
 // ---------------------------------------------------------------------------------
@@ -569,6 +583,9 @@ func run(c *vf.Case) {
 		}
 		gates[i] = g
 		next[i] = &cappedWriter{g: g, limit: int64(3*s.npk + 1000)}
+		if i == 0 && len(s.streams) > 1 && s.deadWriter != nil {
+			next[i].failWith = s.deadWriter
+		}
 	}
 	res.recs = make([][]rec, s.writers)
 	for w := range res.recs {
